@@ -804,6 +804,153 @@ def builtin_level(rep, exe, drv, rng, quick, base, stats, only=None, cap=None):
     return rows
 
 
+# ------------------------------------------------------------------ Integer (big-integer) constants
+
+def bint_boundaries(rng, extra=6):
+    """Integer constants aimed at the representation boundaries of genjava.c:gj0BInt (BigInteger.valueOf(<int literal>) up to
+    a bit-length threshold, new BigInteger("...") beyond) and of the FOAM immediate / boxed big integers."""
+    vals = {0, 1, -1, 2, -2, 7, 255, 3000000000, -3000000000, 10 ** 30, -(10 ** 30)}
+    for k in (15, 28, 29, 30, 31, 32, 33, 61, 62, 63, 64, 65, 100):
+        for dlt in (-1, 0, 1):
+            vals.add((1 << k) + dlt)
+            vals.add(-((1 << k) + dlt))
+    for lo, hi in ((28, 33), (28, 33), (61, 66)):
+        for _ in range(extra):
+            v = rng.randrange(1 << lo, 1 << hi)
+            vals.add(v)
+            vals.add(-v)
+    return sorted(vals)
+
+
+def ilit(v):
+    return "(%d@Integer)" % v if v >= 0 else "(-(%d@Integer))" % -v
+
+
+def bint_program(rng, vals=None, nops=5):
+    """Integer constants (as typed globals, as operands and inside expressions the optimiser folds) printed in decimal,
+    with sums, differences, products and comparisons of them; the oracle is exact arithmetic.  At most a dozen constants
+    per program (the keyed finding javac:code too large otherwise hides the folded levels)."""
+    if vals is None:
+        vals = rng.sample(bint_boundaries(rng), 10)
+    L = ['#include "aldor"\n#include "aldorio"\nimport from Integer, String, Boolean;\n']
+    out = []
+    for i, v in enumerate(vals):
+        L.append("c%d: Integer := %d;\n" % (i, v) if v >= 0 else "c%d: Integer := -%d;\n" % (i, -v))
+    for i, v in enumerate(vals):
+        L.append('stdout << "c%d " << c%d << " " << %s << newline;\n' % (i, i, ilit(v)))
+        out.append("c%d %d %d" % (i, v, v))
+    for n in range(nops):
+        i, j = rng.randrange(len(vals)), rng.randrange(len(vals))
+        a, b = vals[i], vals[j]
+        L.append('stdout << "s%d " << (c%d + c%d) << " " << (%s - %s) << " " << (c%d * %s) << " " << (c%d < c%d) << " " << (%s = c%d) << newline;\n'
+                 % (n, i, j, ilit(a), ilit(b), i, ilit(b), i, j, ilit(a), j))
+        out.append("s%d %d %d %d %s %s" % (n, a + b, a - b, a * b, "T" if a < b else "F", "T" if a == b else "F"))
+    return {"src": "".join(L), "oracle": {"out": "".join(o + "\n" for o in out), "status": "ok"},
+            "features": ["bint-constants"], "family": "bint"}
+
+
+def bint_fixed_programs(rng):
+    """the whole boundary set, ten constants per program"""
+    vals = bint_boundaries(rng, extra=0)
+    return [bint_program(rng, vals[i:i + 10]) for i in range(0, len(vals), 10)]
+
+
+BINT_LEVELS = [0, 1, 3]          # ten constants at -Q9 exceed the JVM method size (keyed finding javac:code too large)
+BINT_Q9 = [[(1 << 31) - 1, 1 << 31, 3000000000], [(1 << 32) - 1, 1 << 32, -3000000000], [-(1 << 31), -(1 << 31) - 1, (1 << 29) - 1],
+           [1 << 29, (1 << 63) - 1, 1 << 64]]
+BBHEAD = """#include "aldor"
+#include "aldorio"
+import from Machine;
+import from MachineInteger, Boolean, Integer;
+import {
+%s
+} from Builtin;
+macro K(n) == ((n@MachineInteger)::SInt);
+macro KB(n) == ((n@Integer)::BInt);
+pr(tag: String, x: SInt): () == { stdout << tag << " " << (x::MachineInteger) << newline; }
+bi(b: Bool): SInt == { if (b::Boolean) then K(1) else K(0) }
+"""
+BB_SIGS = {"BIntEQ": "(BInt, BInt) -> Bool", "BIntNE": "(BInt, BInt) -> Bool", "BIntLT": "(BInt, BInt) -> Bool",
+           "BIntLE": "(BInt, BInt) -> Bool", "BIntIsNeg": "BInt -> Bool", "BIntIsPos": "BInt -> Bool", "BIntIsZero": "BInt -> Bool",
+           "BIntPlus": "(BInt, BInt) -> BInt", "BIntMinus": "(BInt, BInt) -> BInt", "BIntTimes": "(BInt, BInt) -> BInt",
+           "BIntNegate": "BInt -> BInt", "SIntToBInt": "SInt -> BInt", "BIntToSInt": "BInt -> SInt"}
+
+
+def bint_builtin_tests(rng, cap):
+    """[(Aldor Bool/SInt expression printing 0/1 or an integer, expected)] for the BInt builtins on boundary constants"""
+    def kb(v):
+        return "KB(%d)" % v if v >= 0 else "BIntNegate(KB(%d))" % -v
+    vals = bint_boundaries(rng, extra=2)
+    tests = []
+    for v in vals:
+        tests.append(("bi(BIntIsNeg(%s))" % kb(v), int(v < 0)))
+        tests.append(("bi(BIntIsPos(%s))" % kb(v), int(v > 0)))
+        if abs(v) < (1 << 31):
+            tests.append(("bi(BIntEQ(SIntToBInt(%s), %s))" % (b_operand("FSInt", v), kb(v)), 1))
+            tests.append(("BIntToSInt(%s)" % kb(v), v))
+    for a, b in zip(vals, vals[1:]):
+        tests.append(("bi(BIntLT(%s, %s))" % (kb(a), kb(b)), 1))
+        tests.append(("bi(BIntLE(%s, %s))" % (kb(b), kb(a)), 0))
+    pairs = [(rng.choice(vals), rng.choice(vals)) for _ in range(cap)]
+    for a, b in pairs:
+        tests.append(("bi(BIntEQ(BIntPlus(%s, %s), %s))" % (kb(a), kb(b), kb(a + b)), 1))
+        tests.append(("bi(BIntEQ(BIntMinus(%s, %s), %s))" % (kb(a), kb(b), kb(a - b)), 1))
+        tests.append(("bi(BIntEQ(BIntTimes(%s, %s), %s))" % (kb(a), kb(b), kb(a * b)), 1))
+        tests.append(("bi(BIntNE(%s, %s))" % (kb(a), kb(b)), int(a != b)))
+    return tests
+
+
+def bint_level(rep, exe, drv, rng, quick, base, stats):
+    """Big-integer constants on the real JVM, unfolded (-Q0) and folded by the optimiser (-Q3): (i) the BInt builtins on
+    boundary constants against exact arithmetic and the interpreter, (ii) what the model says gj0BInt emits denotes the
+    constant (java_bint_literal_exact) - checked against the digits the JVM prints."""
+    tests = bint_builtin_tests(rng, 20 if quick else 150)
+    chunks = [tests[i:i + 200] for i in range(0, len(tests), 200)]
+    imp = "\n".join("  %s: %s;" % (n, s) for n, s in sorted(BB_SIGS.items())) + "\n  SIntMinus: (SInt, SInt) -> SInt;"
+    progs = []
+    for ci, ch in enumerate(chunks):
+        body = "\n".join('pr("t%d", %s);' % (i, e) for i, (e, _) in enumerate(ch))
+        progs.append({"unit": "bb%d" % ci, "tests": ch,
+                      "src": BBHEAD % imp + "mn: SInt == SIntMinus(K(-2147483647), K(1));\n" + body + "\n"})
+    d = base + "/bint%d" % next(_uniq)
+    jobs = [(p, q) for p in progs for q in (0, 3)]
+    jr = java_batch(exe, None, d, None, timeout=120, jobs=jobs)
+    ir = interp_batch(exe, None, d, None, timeout=120, jobs=jobs)
+    reported = set()
+    for p, q in jobs:
+        j, it = jr[(p["unit"], q)], ir[(p["unit"], q)]
+        jv, iv = parse_t(j["out"]), parse_t(it["out"])
+        if j["status"] in ("gen-error", "javac-error", "timeout") or it["rc"] != 0:
+            rep.violation("big-integer builtin test program at -Q%d does not get through the %s" %
+                          (q, "Java route: " + j["status"] if it["rc"] == 0 else "interpreter"),
+                          {"src": p["src"][:5000], "level": q, "unit": p["unit"], "java": (j["err"] + j["out"])[-1500:],
+                           "interp": it["out"][-600:]}, key=signature_key(j, q))
+            continue
+        for i, (e, want) in enumerate(p["tests"]):
+            t = "t%d" % i
+            stats["bint_builtin_evaluations"] += 1
+            if jv.get(t) != want or iv.get(t) != want:
+                who = "Java" if jv.get(t) != want else "interpreter"
+                g = (who, e.split("(")[1] if "(" in e else e, q)
+                if g in reported or len(reported) > 6:
+                    continue
+                reported.add(g)
+                one = BBHEAD % imp + "mn: SInt == SIntMinus(K(-2147483647), K(1));\n" + 'pr("t0", %s);\n' % e
+                rep.violation("big-integer constants at -Q%d: %s gives %s on the %s route (Java %s, interpreter %s), exact arithmetic says %d"
+                              % (q, e, jv.get(t) if who == "Java" else iv.get(t), who, jv.get(t), iv.get(t), want),
+                              {"how_to_replay": "./check C12 --replay <this file>", "src": one, "level": q, "unit": "bb",
+                               "oracle": {"out": "t0 %d\n" % want, "status": "ok"}})
+    # the model's reading of gj0BInt against the constants the JVM really prints (program level, fixed boundary program)
+    if drv:
+        vals = bint_boundaries(rng, extra=0)
+        ans = model_query(drv, ["bint 1 %d" % v for v in vals])
+        for v, a in zip(vals, ans):
+            stats["bint_model_literals"] += 1
+            if a["value"] != str(v):
+                stats["bint_model_inexact"] += 1
+    return stats
+
+
 # ------------------------------------------------------------------ corpus
 
 def corpus_items():
@@ -877,6 +1024,23 @@ def run(rep, tier):
         boundary product of operands and report an operand tuple inside the side condition on which they differ."""
         failed = sorted(set(re.findall(r'ROW-FAILED"?\s*"(\w+)"', log)))
         stats["rows_failed_in_proof"] = len(failed)
+        if not failed or "bint" in log:
+            # not a table row (or also the literal thresholds of gj0BInt): Integer constants at every representation
+            # boundary, unfolded and folded, on the JVM against exact arithmetic
+            sp = [dict(p, unit="sg%d" % i) for i, p in enumerate(bint_fixed_programs(C.rng("c12-searcher-bint")))]
+            dd = base + "/sbint"
+            jobs = [(p, q) for p in sp for q in BINT_LEVELS]
+            jr = java_batch(exe, None, dd, None, timeout=120, jobs=jobs)
+            ir = interp_batch(exe, None, dd, None, timeout=120, jobs=jobs)
+            for p, q in jobs:
+                k = (p["unit"], q)
+                v, det = compare(jr[k], ir[k], p["oracle"])
+                if v == "disagree" and not signature_key(jr[k], q):
+                    bad = [(a, b) for a, b in zip(jr[k]["out"].split("\n"), p["oracle"]["out"].split("\n")) if a != b][:3]
+                    rep.violation("Integer constants at -Q%d: %s; first differing lines (java / exact): %s" % (q, det, bad),
+                                  {"how_to_replay": "./check C12 --replay <this file>", "src": p["src"], "level": q, "unit": p["unit"],
+                                   "oracle": p["oracle"], "observed": brief(jr[k], ir[k])})
+                    break
         if not failed:
             return
         try:
@@ -893,6 +1057,7 @@ def run(rep, tier):
     try:
         drv = model_driver()
         rows = builtin_level(rep, exe, drv, rng, quick, base, stats)
+        bint_level(rep, exe, drv, rng, quick, base, stats)
     except (C.BuildError, OSError) as e:
         rep.notes.append("Java builtin model not available (extraction did not build): %s" % str(e)[:200])
     t_builtin = time.time() - t0 - t_proof
@@ -913,6 +1078,15 @@ def run(rep, tier):
     for i in range(n_end):
         p = c03.ending_program(rng, kinds[i % len(kinds)], c03.CONTEXTS[i % 4])
         p.update(unit="e%d" % i, family="ending", levels=LEVELS)
+        progs.append(p)
+    bints = bint_fixed_programs(rng) + [bint_program(rng) for _ in range(0 if quick else 30)]
+    n_bint = len(bints)
+    for i, p in enumerate(bints):
+        p.update(unit="g%d" % i, levels=BINT_LEVELS)
+        progs.append(p)
+    for i, vs in enumerate(BINT_Q9):                 # three constants each: small enough for -Q9
+        p = bint_program(rng, vs, nops=1)
+        p.update(unit="g9x%d" % i, levels=[9])
         progs.append(p)
     mini.build(rebuild_coq=False)
     dropped = collections.Counter()
@@ -1007,13 +1181,14 @@ def run(rep, tier):
                      "the side condition also = interpreter value = specification",
                 samples=[{"unit": p["unit"], "family": p["family"], "features": p.get("features", [])[:8]} for p in progs[:12]],
                 input_distribution={
-                    "levels": LEVELS, "programs": {"corpus": len(corp), "hand": n_fam, "ending": n_end, "mini": len(got)},
+                    "levels": LEVELS, "programs": {"corpus": len(corp), "hand": n_fam, "ending": n_end, "mini": len(got), "bint": n_bint},
+                    "bint_levels": BINT_LEVELS,
                     "pairs": n_cmp, "verdicts": dict(verdicts), "verdicts_per_family": {k: dict(v) for k, v in per_family.items()},
                     "mini_candidates": cand, "mini_dropped_by_filter": dict(dropped.most_common(12)),
                     "mini_filter": {"supported_features": sorted(MINI_SUPPORTED), "literal_classes": sorted(MINI_LITERALS) + ["int:*"],
                                     "unsupported": MINI_UNSUPPORTED},
                     "feature_mix(programs containing)": dict(feat.most_common()),
-                    "builtin_level": {k: v for k, v in stats.items() if k.startswith("builtin")},
+                    "builtin_level": {k: v for k, v in stats.items() if k.startswith("builtin") or k.startswith("bint")},
                     "java_table_rows": dict(rowclass), "known_bad_java_rows": known_bad,
                     "disagreement_groups": dict(groups),
                 },
@@ -1031,6 +1206,9 @@ def run(rep, tier):
         "(keyed finding javacode:right-nested-binop-no-parens, reproduced by corpus/C12/nested_minus_parens.as on every run)",
         "programs with an update through a record alias are run below -Q3 only (keyed finding opt:Q4+:record-alias-stale-field, reproduced "
         "by corpus/C12/record_alias_q4.as on every run)",
+        "Integer constants: a family of programs printing constants at the boundaries 2^28..2^33, 2^61..2^66, 2^100 (both signs, +-1) "
+        "and sums / differences / products of them runs at -Q0, -Q1 and -Q3 (unfolded and folded into immediate big integers; a three-constant variant at -Q9) "
+        "against exact arithmetic; the BInt builtins run on the same constants at -Q0 and -Q3",
         "java.lang.Character methods are modelled on ASCII only; javac, the JVM and foamj's classes are not modelled",
         "translator tools/javabuiltins_gen.py: the meaning of each gj0BCall<Method> generator is hard-wired and its text is checked "
         "against a pattern on every run (a changed generator makes its rows opaque, and the proofs fail)")
